@@ -72,6 +72,7 @@ func runC20(w *World, r *Report) {
 	c20ValidateLast(w, r)
 	c20DecodePtr(w, r)
 	c20RegularOnly(w, r)
+	c20HeaderSlice(w, r)
 }
 
 func c20Scope(w *World, r *Report) (map[*ssa.Function]bool, map[*ssa.Function]bool) {
